@@ -632,8 +632,7 @@ func TestC11(t *testing.T) {
 		}
 	}
 
-	rep.CoqFiles = append(rep.CoqFiles, f.finish(t, dir))
-	rep.CaseFiles = append(rep.CaseFiles, writeJSONL(t, dir, "C11_errmap_rows.jsonl", jl))
+	f.finishSharded(t, dir, rep, jl, 400)
 
 	// ---- (c) malformed requests ----
 	if os.Getenv("VERIF_REPLAY") == "" {
